@@ -1,4 +1,7 @@
 #[cfg(okane_verif)]
+#[allow(unused_imports)]
+use crate::verif::chrono;
+#[cfg(okane_verif)]
 use crate::verif::std;
 use std::{borrow::Cow, collections::HashMap};
 
